@@ -204,10 +204,16 @@ class SubclassJSONSerializer:
         if not fully_qualified_class_name:
             raise MissingTypeError()
 
+        if not isinstance(fully_qualified_class_name, str):
+            raise InvalidTypeFormatError(fully_qualified_class_name)
+
         try:
             module_name, class_name = fully_qualified_class_name.rsplit(".", 1)
         except ValueError as exc:
             raise InvalidTypeFormatError(fully_qualified_class_name) from exc
+
+        if not module_name or module_name.startswith("."):
+            raise InvalidTypeFormatError(fully_qualified_class_name)
 
         try:
             module = importlib.import_module(module_name)
@@ -218,6 +224,9 @@ class SubclassJSONSerializer:
             target_cls = getattr(module, class_name)
         except AttributeError as exc:
             raise ClassNotFoundError(class_name, module_name) from exc
+
+        if not isinstance(target_cls, type):
+            raise ClassNotFoundError(class_name, module_name)
 
         if issubclass(target_cls, SubclassJSONSerializer):
             return target_cls._from_json(data, **kwargs)
